@@ -3,7 +3,7 @@ import { Reporter, TIER, valueKind, sha } from "./common.mjs";
 import { familyPrograms, forEachCompiledParser } from "./cases.mjs";
 import { CompilePool, classify, DEFAULT_SETTINGS } from "./compile.mjs";
 import { loadProgram } from "./runtime.mjs";
-import { render, skeleton, Alias, Ref, ObjT, Prop, P, L, U, ArrT, Tup, Rec, MapT, SetT, Typed, FmtS, FmtN, Tpl, H } from "./spec.mjs";
+import { render, skeleton, Alias, Ref, ObjT, Prop, P, L, U, I, ArrT, Tup, Rec, MapT, SetT, Typed, FmtS, FmtN, Tpl, H } from "./spec.mjs";
 import { build, toSrc, pool } from "./universe.mjs";
 import { classifyDiff } from "./structkey.mjs";
 
@@ -35,6 +35,34 @@ function hostilePrograms() {
       ["GT", ObjT([Prop("a", Ref("T")), Prop("b", ArrT(Ref("T")))])],
     ],
   });
+  // precedence and text-level traps: operator characters inside string literals and JSDoc text, unions inside
+  // intersections (inline, so that they are printed in place), intersections inside union variants, arrays of both
+  {
+    const D = (name, t, doc, opt = false) => ({ name, t, opt, doc });
+    const hostileLits = ["R & D", "a | b", "x[]", "(p)", "a;b", "{", "}", "/* c */", "// c", "=>", "a, b", "<T>", "`", "${x}", "\\", "\n"];
+    const decls = [
+      Alias("Min", ObjT([Prop("min", P("number"))])),
+      Alias("Max", ObjT([Prop("max", P("number"))])),
+      Alias("Base", ObjT([Prop("id", P("string"))])),
+    ];
+    const parsers = [];
+    hostileLits.forEach((h, i) => {
+      parsers.push([`PL${i}`, I(ObjT([Prop("id", P("string"))]), U(ObjT([Prop("dept", L(h))]), ObjT([Prop("team", P("string"))])))]);
+      parsers.push([`PU${i}`, U(L(h), ArrT(U(L(h), P("number"))))]);
+    });
+    parsers.push(["PI1", I(Ref("Base"), U(ObjT([Prop("r", I(Ref("Min"), Ref("Max")))]), ObjT([Prop("team", P("string"))])))]);
+    parsers.push(["PI2", I(ObjT([Prop("id", P("string"))]), U(ObjT([Prop("r", ArrT(I(Ref("Min"), Ref("Max"))))]), ObjT([Prop("team", P("string"))])))]);
+    parsers.push(["PI3", U(I(Ref("Min"), Ref("Max")), ObjT([Prop("team", P("string"))]))]);
+    parsers.push(["PI4", ArrT(I(Ref("Base"), U(Ref("Min"), Ref("Max"))))]);
+    parsers.push(["PI5", I(U(Ref("Min"), Ref("Max")), U(Ref("Base"), ObjT([Prop("team", P("string"))])))]);
+    parsers.push(["PI6", Tup([I(Ref("Base"), U(Ref("Min"), ObjT([Prop("k", L("a & b"))])))], U(Ref("Min"), Ref("Max")))]);
+    const docs = ["plain words", "uses & and | freely", "ends a comment */ early", "has `ticks` and ${dollar}", "two\nlines", " leading and trailing ", "@deprecated tag", "a \\ backslash", "star * inside"];
+    docs.forEach((d, i) => {
+      parsers.push([`PD${i}`, I(ObjT([Prop("id", P("string"))]), U(ObjT([D("dept", P("string"), d)]), ObjT([D("team", P("number"), d, true)])))]);
+      parsers.push([`PE${i}`, ObjT([D("a", U(L("x"), P("number")), d), D("b", ArrT(ObjT([D("c", P("boolean"), d, true)])), d, true)])]);
+    });
+    for (let i = 0; i < parsers.length; i += 16) progs.push({ family: "HOSTILE", decls, parsers: parsers.slice(i, i + 16) });
+  }
   return progs;
 }
 
